@@ -207,12 +207,21 @@ def other_loop_over(f, field, what):
 def enum_edges(g, call_pat, enum_name):
     """[(bid, label of 'the value is <enum_name>')] over the comparisons of a call matching call_pat (e.g. MacroMetadata::event) with
     the enumerator whose qualified name ends with enum_name"""
-    from qlib import norm_cmp, walk, is_call
+    from qlib import norm_cmp, walk, is_call, var_ref, strip, isnode
     out = []
+    # a local that holds the result of the call and is never assigned again stands for the call (`auto const event = m->event();`)
+    f = g.fn
+    held = getattr(g, "_held_calls", {}).get(call_pat)
+    if held is None:
+        inits = f.var_inits()
+        held = {v for v, i in inits.items() if isnode(i) and is_call(strip(i, casts=True), call_pat) and not f.assignments_to_var(v)}
+        if not hasattr(g, "_held_calls"):
+            g._held_calls = {}
+        g._held_calls[call_pat] = held
     for bid, b in g.blocks.items():
         c = g.term_cond(bid)
         nc = norm_cmp(c) if c is not None else None
-        if nc and nc[0] in ("==", "!=") and any(is_call(x, call_pat) for x in walk(c)) and \
+        if nc and nc[0] in ("==", "!=") and any(is_call(x, call_pat) or (held and x["k"] == "DeclRefExpr" and x.get("did") in held) for x in walk(c)) and \
                 any(x["k"] == "DeclRefExpr" and x.get("dk") == "EnumConstant" and x.get("name", "").endswith("::" + enum_name) for x in walk(c)):
             out.append((bid, "T" if nc[0] == "==" else "F"))
     return out
